@@ -38,6 +38,9 @@ enum Dev {
     OuterSendToHub,
     OuterType(u8),
     InnerType(u8),
+    /// a valid low byte with a non-zero high byte in the outer / inner type word
+    OuterTagDirty,
+    InnerTagDirty,
     OriginNeverTrusted,
     OriginY,
     UnknownToken,
@@ -135,8 +138,8 @@ impl C04 {
             Dev::None => 0,
             Dev::NeverApproved | Dev::ApprovedOtherPayload | Dev::ApprovedOtherId | Dev::ApprovedOtherSourceAddress | Dev::ApprovedOtherDest => 1,
             Dev::SourceChainNotHub | Dev::SourceAddressNotHub => 2,
-            Dev::OuterSendToHub | Dev::OuterType(_) => 3,
-            Dev::InnerType(_) => 4,
+            Dev::OuterSendToHub | Dev::OuterType(_) | Dev::OuterTagDirty => 3,
+            Dev::InnerType(_) | Dev::InnerTagDirty => 4,
             Dev::OriginNeverTrusted | Dev::OriginY => 5,
             Dev::UnknownToken | Dev::TakenId => 6,
             Dev::GarbageAddress(_) => 7,
@@ -217,9 +220,11 @@ impl C04 {
         if p.len() < 96 { continue; }
         let off = u64::from_be_bytes(p[88..96].try_into().unwrap()) as usize;
         let inner = off + 32;
-        if inner + 160 > p.len() && matches!(d, Dev::InnerType(_) | Dev::Amount(_)) { return None; }
+        if inner + 160 > p.len() && matches!(d, Dev::InnerType(_) | Dev::InnerTagDirty | Dev::Amount(_)) { return None; }
         match d {
             Dev::OuterType(t) => p[0..32].copy_from_slice(&word_u128(t as u128)),
+            Dev::OuterTagDirty => p[0] = 1,
+            Dev::InnerTagDirty => p[inner + 30] = 1,
             Dev::InnerType(t) => p[inner..inner + 32].copy_from_slice(&word_u128(t as u128)),
             Dev::Amount(i) => p[inner + 128..inner + 160].copy_from_slice(&amount_word(i)),
             Dev::TruncateAtWord(kw) => {
@@ -258,6 +263,8 @@ impl C04 {
             Dev::EmptySymbol,
         ];
         for t in [0u8, 1, 2, 5, 255] { v.push(Dev::OuterType(t)); }
+        v.push(Dev::OuterTagDirty);
+        v.push(Dev::InnerTagDirty);
         for t in [2u8, 3, 4, 5, 255] { v.push(Dev::InnerType(t)); }
         for g in 0..3u8 { v.push(Dev::GarbageAddress(g)); }
         for a in 0..7u8 { v.push(Dev::Amount(a)); }
@@ -408,7 +415,7 @@ impl Scenario for C04 {
                     if n == 0 { a_payload.push(1) } else { a_payload[n - 1] ^= 1 }
                 }
                 if has(Dev::ApprovedOtherId) { a_id = format!("{}-other", id); }
-                if has(Dev::ApprovedOtherSourceAddress) { a_src = "another-hub-address"; }
+                if has(Dev::ApprovedOtherSourceAddress) { a_src = "HUB-ADDRESS"; } // differs from the hub address in letter case only
                 if has(Dev::ApprovedOtherDest) { a_dest = &iw.gas; }
                 let approved = !has(Dev::NeverApproved);
                 if approved {
@@ -467,6 +474,21 @@ impl Scenario for C04 {
                     return;
                 }
                 if !effective { return; }
+                // exactly once: re-approving and re-delivering the same message must be refused, right
+                // away and also after 20 ledgers and after 64 days (tried on a snapshot)
+                for wait in [0u32, 20, 1_100_000] {
+                    let snap = w.snap();
+                    if wait > 0 {
+                        w.set_seq(w.seq() + wait);
+                        w.set_time(w.now() + 5 * wait as u64);
+                    }
+                    let re = iw.approve_delivery(a_chain, &a_id, a_src, a_dest, &a_payload);
+                    let again = iw.execute(&iw.its, x_chain, &id, x_src, &payload);
+                    w.restore(&snap);
+                    out.expect(re.ok && !again.ok, "execute.replay-accepted", || {
+                        format!("{:?}: re-approved and delivered again {} ledgers later -> ok={}", a, wait, again.ok)
+                    });
+                }
                 // effects, exactly as announced, once
                 m.executed.push(id.clone());
                 let ex = iw.is_executed(x_chain, &id);
@@ -576,7 +598,7 @@ fn main() {
         let thorough = tier == "thorough";
         let mut o = Opts::new(tier, if thorough { 4 } else { 2 });
         o.min_depth = 2;
-        o.rule = "histories over {set/remove trusted chain X, Y} and deliveries; a delivery = one of 5 conforming messages (transfer to service-deployed token, to canonical token, with data to an app, remote deploy without/with minter) with ONE deviation from {none, never approved, approved with other payload / id / source address / destination contract, source chain not the hub, source address not the hub address, SendToHub wrapper, outer type 0/1/2/5/255, inner type 2/3/4/5/255, origin never trusted, origin Y (trusted only after set), unknown token, 3 kinds of undecodable recipient/minter bytes, amount words 2^127, 2^128, 2^128+1000, 2^184+7, 2^192+5, 2^255, ff..ff, truncation at every 32-byte word, 3 kinds of trailing bytes on the payload and on the inner message, over-custody amount, taken token id, empty name, empty symbol}; delivering the same message twice arises as a path; thorough: every PAIR of deviations of different classes from the states reached by trust changes; payloads come from the independent ABI encoder".into();
+        o.rule = "histories over {set/remove trusted chain X, Y} and deliveries; a delivery = one of 5 conforming messages (transfer to service-deployed token, to canonical token, with data to an app, remote deploy without/with minter) with ONE deviation from {none, never approved, approved with other payload / id / source address / destination contract, source chain not the hub, source address not the hub address, SendToHub wrapper, outer type 0/1/2/5/255, inner type 2/3/4/5/255, a dirty high byte in the outer / inner type word, origin never trusted, origin Y (trusted only after set), unknown token, 3 kinds of undecodable recipient/minter bytes, amount words 2^127, 2^128, 2^128+1000, 2^184+7, 2^192+5, 2^255, ff..ff, truncation at every 32-byte word, 3 kinds of trailing bytes on the payload and on the inner message, over-custody amount, taken token id, empty name, empty symbol}; delivering the same message twice arises as a path; thorough: every PAIR of deviations of different classes from the states reached by trust changes; payloads come from the independent ABI encoder".into();
         (C04 { thorough }, o)
     });
 }
